@@ -123,9 +123,9 @@ fn batch_shapes(rng: &mut Rng) -> Vec<(QKind, Vec<usize>)> {
 fn case1<T: Elem>(case: u64, which: u64, args: &Args, ev: &mut Ev) {
     let mut rng = Rng::derive(args.seed, "C05", &[case]);
     let (spec, _lab) = if which == 0 {
-        gen_linear_case::<T>(&mut rng, &LinearOpts { max_n: 12, max_lane_rank: 2, ..Default::default() })
+        gen_linear_case::<T>(&mut rng, &LinearOpts { max_n: 12, max_lane_rank: 2, allow_zero_lanes: true, ..Default::default() })
     } else {
-        let mut o = SplineOpts { max_n: 12, max_lane_rank: 2, ..Default::default() };
+        let mut o = SplineOpts { max_n: 12, max_lane_rank: 2, allow_zero_lanes: true, ..Default::default() };
         // walk through the boundary families: whole-set ones, Periodic, mixed pairs
         if case % 3 == 0 {
             o.force_pair = Some(sb_pair_index((case / 3) as usize));
@@ -225,7 +225,7 @@ fn case1<T: Elem>(case: u64, which: u64, args: &Args, ev: &mut Ev) {
 
 fn case2<T: Elem>(case: u64, args: &Args, ev: &mut Ev) {
     let mut rng = Rng::derive(args.seed, "C05", &[case]);
-    let (spec, _lab) = gen_grid_case::<T>(&mut rng, &GridOpts { max_nx: 7, max_ny: 5, max_lane_rank: 2, ..Default::default() });
+    let (spec, _lab) = gen_grid_case::<T>(&mut rng, &GridOpts { max_nx: 7, max_ny: 5, max_lane_rank: 2, allow_zero_lanes: true, ..Default::default() });
     let x = spec.axis_x();
     let y = spec.axis_y();
     let strat = "Bilinear".to_string();
